@@ -30,7 +30,7 @@ def frames_for(rng, tags, cid, calls):
     for kind, ow in calls:
         out.append(sg.call(kind, cid, tags.next(), v=rng.randrange(0, 1000), oneway=ow,
                            more=rng.choice([False, False, True, "false"]),      # the flag does not decide the answer
-                           s=sg.nasty(rng), raw_utf8=rng.random() < 0.3))
+                           s=sg.nasty(rng), raw_utf8=rng.random() < 0.3, extra=sg.pick_extra(rng)))
     return out
 
 
